@@ -337,6 +337,7 @@ package mqtt
 // verif:func mqtt.isolateParticle
 //@ requires 0 <= d && d < 4611686018427387904
 //@ axiom general-level: 0 <= d && d < nlevels(filter) ==> particle == level(filter, d) && (hasNext <==> d < nlevels(filter) - 1)
+//@ axiom past-the-last-level: d >= nlevels(filter) && nlevels(filter) >= 1 ==> particle == level(filter, nlevels(filter) - 1) && !hasNext
 // level d in general and whether a further level follows (trusted reading of the level scan; levels 0 and 1 are proved against the byte-level definition)
 //@ axiom general-level: 0 <= d && d < nlevels(filter) ==> particle == level(filter, d) && (hasNext <==> d < nlevels(filter) - 1)
 //@ ensures d0: d == 0 ==> particle == lvl0(filter) && (hasNext <==> idx(filter, 47) >= 0)
@@ -894,3 +895,56 @@ package mqtt
 //@ ensures C01-client-subscriptions-of-exactly-the-matching-filters: forall g *particle :: r0.gsub[g] <==> (len(topic) > 0 && under(x, g, nil, 0) && tmatch(g, topic, 0))
 //@ ensures C01-shared-subscriptions-of-exactly-the-matching-filters: forall g *particle :: r0.gshared[g] <==> (len(topic) > 0 && under(x, g, nil, 0) && tmatch(g, topic, 0))
 //@ ensures C01-inline-subscriptions-of-exactly-the-matching-filters: forall g *particle :: r0.ginline[g] <==> (len(topic) > 0 && under(x, g, nil, 0) && tmatch(g, topic, 0))
+
+// ======================================================================================
+// Topic index: the retained messages a filter matches (C02)
+// ======================================================================================
+// A retained message lives at the node whose path is the level sequence of its topic; node.retainPath is that topic.
+// rnode(t): the node holding the retained message of topic t. ghost ggot (on the retained store): how often the message
+// of a topic was looked up successfully -- every message Messages() returns is appended right after such a lookup.
+// verif:spec rnode(string) *particle
+// verif:ghost field ggot ref (Array Str Int)
+// verif:def dollarS(s string) bool = len(s) > 0 && s[0] == '$'
+// MQTT matching of filter f against the topic that node g stands for, from level j on (levels below j already matched), written
+// from the statement of C02: the same rules as live delivery; a trailing '#' matches the parent level and every level below;
+// a filter that starts with a wildcard does not match a topic that starts with '$'.
+// verif:spec rmatch(ref, string, int) bool
+// verif:axiom rmatch-def: forall g ref, f string, j int :: rmatch(g, f, j) <==> (0 <= j && !(j == 0 && dollarS(fkey(g, 0)) && (level(f, 0) == "+" || level(f, 0) == "#")) && ((level(f, nlevels(f) - 1) == "#" && j >= nlevels(f) - 1 && j <= tdepth(g)) || (j < nlevels(f) && j < tdepth(g) && level(f, j) != "#" && (level(f, j) == "+" || level(f, j) == fkey(g, j)) && ((j + 1 == tdepth(g) && j + 1 == nlevels(f)) || rmatch(g, f, j + 1)))))
+// retained part of the index shape: the node of a retained topic is found through rnode
+// verif:def retInv(x *TopicsIndex) bool = x.Retained != nil && x.Retained.internal != nil && !has(x.Retained.internal, "") && (forall g *particle :: inTrie(g) && g.retainPath != "" ==> rnode(g.retainPath) == g) && (forall c *particle :: inTrie(c) ==> tdepth(c) <= 1099511627776 && allocated(c.particles.internal))
+// '#' occurs only as the last level of a filter (IsValidFilter, C30)
+// verif:def hashLast(f string) bool = forall j int :: 0 <= j && j < nlevels(f) - 1 ==> level(f, j) != "#"
+// the message of topic t is one of those the walk below n (depth d) must return
+// verif:def retHit(x *TopicsIndex, t string, n *particle, d int, f string) bool = has(x.Retained.internal, t) && inTrie(rnode(t)) && rnode(t).retainPath == t && under(x, rnode(t), n, d) && rmatch(rnode(t), f, d)
+
+// verif:func packets.Packets.Get trusted
+//@ modifies p.ggot
+//@ ensures ok <==> has(p.internal, id)
+//@ ensures ok ==> val == p.internal[id]
+//@ ensures forall t string :: p.ggot[t] == old(p.ggot[t]) + ((t == id && ok) ? 1 : 0)
+// verif:func packets.Packets.Len trusted pure
+//@ ensures r0 == len(p.internal) && r0 >= 0 && (r0 == 0 ==> (forall t string :: !has(p.internal, t)))
+// verif:func mqtt.particles.getAll trusted
+//@ ensures r0 != nil && fresh(r0)
+//@ ensures forall k string :: (has(r0, k) <==> has(p.internal, k)) && r0[k] == p.internal[k]
+// verif:ext strings.HasPrefix pure params=s,prefix
+//@ ensures len(prefix) == 1 ==> (result <==> (len(s) > 0 && s[0] == prefix[0]))
+
+// verif:func mqtt.TopicsIndex.scanMessages uses=rmatch-def
+//@ requires trieInv(x) && retInv(x) && 0 <= d && (n == nil ==> d == 0) && (n != nil ==> inTrie(n) && tdepth(n) == d)
+//@ requires len(filter) > 0 ==> nlevels(filter) >= 1 && nlevels(filter) <= 1099511627776 && hashLast(filter) && (d < nlevels(filter) || level(filter, nlevels(filter) - 1) == "#")
+//@ modifies x.Retained.ggot
+//@ ensures C02-a-filter-without-wildcards-returns-only-the-identical-topic: noWild(filter) ==> (forall t string :: x.Retained.ggot[t] == old(x.Retained.ggot[t]) + ((len(filter) > 0 && t == filter && has(x.Retained.internal, t)) ? 1 : 0))
+//@ ensures C02-exactly-the-matching-retained-messages-each-once: !noWild(filter) ==> (forall t string :: x.Retained.ggot[t] == old(x.Retained.ggot[t]) + ((len(filter) > 0 && retHit(x, t, n, d, filter)) ? 1 : 0))
+//@ decreases 1099511627776 - d
+// verif:loop mqtt.TopicsIndex.scanMessages 1
+//@ invariant counted: forall t string :: x.Retained.ggot[t] == old(x.Retained.ggot[t]) + ((retHit(x, t, n0, d, filter) && visited1[fkey(rnode(t), d)]) ? 1 : 0)
+//@ invariant copy: forall k string :: (has(rangemap1, k) <==> has(n.particles.internal, k)) && rangemap1[k] == n.particles.internal[k]
+//@ invariant valid: trieInv(x) && retInv(x) && n != nil && inTrie(n) && tdepth(n) == d && n == (n0 == nil ? x.root : n0)
+// the entry point
+// verif:func mqtt.TopicsIndex.Messages uses=rmatch-def
+//@ requires trieInv(x) && retInv(x)
+//@ requires len(filter) > 0 ==> nlevels(filter) >= 1 && nlevels(filter) <= 1099511627776 && hashLast(filter)
+//@ modifies x.Retained.ggot
+//@ ensures C02-a-filter-without-wildcards-returns-only-the-identical-topic: noWild(filter) ==> (forall t string :: x.Retained.ggot[t] == old(x.Retained.ggot[t]) + ((len(filter) > 0 && t == filter && has(x.Retained.internal, t)) ? 1 : 0))
+//@ ensures C02-exactly-the-matching-retained-messages-each-once: !noWild(filter) ==> (forall t string :: x.Retained.ggot[t] == old(x.Retained.ggot[t]) + ((len(filter) > 0 && retHit(x, t, nil, 0, filter)) ? 1 : 0))
